@@ -125,3 +125,32 @@ def native_search():
         return None
     finally:
         shutil.rmtree(tmp, ignore_errors=True)
+
+
+def add_resolve_inherit(reg, prop):
+    """Type.resolve_inherit: with a new link version the inherited member list is rebuilt from the (resolved)
+    parent, or emptied when there is no parent any more — whatever was cached before."""
+    def m_find(eng, st, node, args, kwargs):
+        return V(TOpt(TRef("Obj")), eng.decls.fresh("looked_up_parent", sort_of(TOpt(TRef("Obj")), eng.decls)))
+
+    def m_links_back(eng, st, node, args, kwargs):
+        return V(BOOL, eng.decls.fresh("links_back", smt.BOOL))
+
+    def m_parent(eng, st, node, args, kwargs):
+        st.env["rebuilt"] = V(BOOL, smt.TRUE)
+        eng.heap_set(st, ("self", "in_children"), V(TSeq(TRef("Obj")), eng.decls.fresh("rebuilt_members", REFS)))
+        return NoneV()
+    m_parent.modifies = ["self.in_children", "self.inherit", "self.inherit_tmp"]
+
+    reg.add(Contract(
+        f"{TYPE}.resolve_inherit", prop=prop, receiver_cls="Type",
+        params={"obj_tree": JSON, "inherit_version": INT, "rebuilt": BOOL},
+        fields={"self.in_children": TSeq(TRef("Obj")), "self.inherit_var": TOpt(TRef("Obj")), "self.inherit": TOpt(STR),
+                "self.inherit_version": INT, "self.parent": TOpt(TRef("Obj")), "self.inherit_tmp": TOpt(STR)},
+        requires=[("ghost_init", "not rebuilt")],
+        ensures=[("rebuilt_on_new_version", "implies(old(self.inherit) is not None and old(self.inherit_version) != inherit_version, "
+                                            "rebuilt or len(self.in_children) == 0)"),
+                 ("version_recorded", "implies(old(self.inherit) is not None, self.inherit_version == inherit_version)")],
+        calls={"find_in_scope": m_find, "self.links_back": m_links_back, "self._resolve_inherit_parent": m_parent},
+        short="Type.resolve_inherit"))
+    return f"{TYPE}.resolve_inherit"
